@@ -288,7 +288,17 @@ def rule_r1(chk, prog, cg, zone):
                     child = p_
                     p_ = getattr(p_, '_parent', None)
                 if guard_inside is None:
-                    continue  # unguarded here: judged above (zone)
+                    # guarded at a call site of this function instead: that
+                    # guard encloses the whole loop as well
+                    short = f.name
+                    for q2, f2 in m.funcs.items():
+                        for c2 in calls_in(f2):
+                            nm2 = (call_name(c2) or '').split('.')[-1]
+                            if nm2 == short and f2 is not f and \
+                                    in_guarded_try(c2, f2):
+                                guard_inside = False
+                if guard_inside is None:
+                    continue  # unguarded altogether: judged above (zone)
                 nloop += 1
                 chk.check('C04.R1', f'{modname}.{f._qualname}',
                           f'guard of {unparse(c)[:40]} inside the loop over '
